@@ -15,13 +15,6 @@ theorem lrun_stepB {whole : List BLine} {f : Nat} {l : BLine} {rest : List BLine
        | (.normal, c1) => lrun whole f rest c1
        | (.exit k, c') => some (.exit k, c')
        | _ => none) := by
-  have hne : (l == BLine.raw "endlocal & exit /B %_e%") = false := by
-    cases hb : (l == BLine.raw "endlocal & exit /B %_e%") with
-    | false => rfl
-    | true =>
-      have : l = .raw "endlocal & exit /B %_e%" := by simpa using hb
-      subst this
-      simp [stepB] at h
   obtain ⟨o, c2⟩ := r
   cases l with
   | label n => simp [stepB] at h
@@ -31,14 +24,30 @@ theorem lrun_stepB {whole : List BLine} {f : Nat} {l : BLine} {rest : List BLine
   | close => simp [stepB] at h
   | elseOpen => simp [stepB] at h
   | elseIfOpen t => simp [stepB] at h
-  | set n v => simp only [lrun, hne, Bool.false_eq_true, if_false, h]; cases o <;> rfl
-  | setA n a op b => simp only [lrun, hne, Bool.false_eq_true, if_false, h]; cases o <;> rfl
-  | ifSet q a os b hh x y => simp only [lrun, hne, Bool.false_eq_true, if_false, h]; cases o <;> rfl
-  | andSet a b hh => simp only [lrun, hne, Bool.false_eq_true, if_false, h]; cases o <;> rfl
-  | orSet a b hh => simp only [lrun, hne, Bool.false_eq_true, if_false, h]; cases o <;> rfl
-  | call n args => simp only [lrun, hne, Bool.false_eq_true, if_false, h]; cases o <;> rfl
-  | goto n => simp only [lrun, hne, Bool.false_eq_true, if_false, h]; cases o <;> rfl
-  | raw t => simp only [lrun, hne, Bool.false_eq_true, if_false, h]; cases o <;> rfl
+  | set n v => simp only [lrun, h]; cases o <;> rfl
+  | setA n a op b => simp only [lrun, h]; cases o <;> rfl
+  | ifSet q a os b hh x y => simp only [lrun, h]; cases o <;> rfl
+  | andSet a b hh => simp only [lrun, h]; cases o <;> rfl
+  | orSet a b hh => simp only [lrun, h]; cases o <;> rfl
+  | call n args => simp only [lrun, h]; cases o <;> rfl
+  | goto n =>
+    have hn := stepB_goto_some h
+    subst hn
+    have ho : ∃ k, o = .exit k := by
+      simp only [stepB] at h
+      split at h
+      · split at h
+        · simp only [Option.some.injEq, Prod.mk.injEq] at h; exact ⟨_, h.1.symm⟩
+        · simp at h
+      · simp at h
+    obtain ⟨k, rfl⟩ := ho
+    simp only [lrun, beq_self_eq_true, if_true, h]
+  | raw t =>
+    have ht := stepB_raw_some h
+    subst ht
+    have e1 : ("rem No operation" == "endlocal & exit /B %_e%") = false := by decide
+    simp only [lrun, nopRaw_rem, Bool.false_eq_true, if_false, e1, h]
+    cases o <;> rfl
 
 /-- more fuel does not change a result -/
 theorem lrun_mono (whole : List BLine) : ∀ (f : Nat) (L : List BLine) (c : Cfg) (r : Out × Cfg),
@@ -47,25 +56,20 @@ theorem lrun_mono (whole : List BLine) : ∀ (f : Nat) (L : List BLine) (c : Cfg
   | f + 1, [], c, r, h => by simpa [lrun] using h
   | f + 1, l :: rest, c, r, h => by
     have ih := lrun_mono whole f
-    have plain : ∀ (l : BLine), plainB l = true →
+    have plain : ∀ (l : BLine), (∀ t, l ≠ .raw t) → (∀ n, l ≠ .goto n) → plainB l = true →
         lrun whole (f + 1) (l :: rest) c = some r → lrun whole (f + 1 + 1) (l :: rest) c = some r := by
-      intro l hl h
-      by_cases he : l = .raw "endlocal & exit /B %_e%"
-      · subst he
-        simp only [lrun, beq_self_eq_true, if_true] at h ⊢
-        exact h
-      · have hne : (l == BLine.raw "endlocal & exit /B %_e%") = false := by simpa using he
-        cases hs : stepB l c with
-        | none =>
-          cases l <;> simp [plainB] at hl <;> simp only [lrun, hne, Bool.false_eq_true, if_false, hs] at h <;> simp at h
-        | some r1 =>
-          rw [lrun_stepB hs] at h ⊢
-          obtain ⟨o1, c1⟩ := r1
-          cases o1 with
-          | normal => exact ih _ _ _ h
-          | exit k => exact h
-          | brk => simp at h
-          | cont => simp at h
+      intro l hr hg hl h
+      cases hs : stepB l c with
+      | none =>
+        cases l <;> simp [plainB] at hl <;> first | exact absurd rfl (hr _) | exact absurd rfl (hg _) | (simp only [lrun, hs] at h; simp at h)
+      | some r1 =>
+        rw [lrun_stepB hs] at h ⊢
+        obtain ⟨o1, c1⟩ := r1
+        cases o1 with
+        | normal => exact ih _ _ _ h
+        | exit k => exact h
+        | brk => simp at h
+        | cont => simp at h
     cases l with
     | clabel n => simp only [lrun] at h ⊢; exact ih _ _ _ h
     | label n => simp only [lrun] at h ⊢; exact ih _ _ _ h
@@ -93,14 +97,41 @@ theorem lrun_mono (whole : List BLine) : ∀ (f : Nat) (L : List BLine) (c : Cfg
               cases x <;> simp only [hk] at h ⊢ <;> first | exact ih _ _ _ h | simp at h
     | elseOpen => simp [lrun, stepB] at h
     | elseIfOpen t => simp [lrun, stepB] at h
-    | set n v => exact plain _ rfl h
-    | setA n a op b => exact plain _ rfl h
-    | ifSet q a os b hh x y => exact plain _ rfl h
-    | andSet a b hh => exact plain _ rfl h
-    | orSet a b hh => exact plain _ rfl h
-    | call n args => exact plain _ rfl h
-    | goto n => exact plain _ rfl h
-    | raw t => exact plain _ rfl h
+    | set n v => exact plain _ (by intro t e; cases e) (by intro t e; cases e) rfl h
+    | setA n a op b => exact plain _ (by intro t e; cases e) (by intro t e; cases e) rfl h
+    | ifSet q a os b hh x y => exact plain _ (by intro t e; cases e) (by intro t e; cases e) rfl h
+    | andSet a b hh => exact plain _ (by intro t e; cases e) (by intro t e; cases e) rfl h
+    | orSet a b hh => exact plain _ (by intro t e; cases e) (by intro t e; cases e) rfl h
+    | call n args => exact plain _ (by intro t e; cases e) (by intro t e; cases e) rfl h
+    | goto n =>
+      simp only [lrun] at h ⊢
+      by_cases hn : n = "end"
+      · subst hn
+        simp only [beq_self_eq_true, if_true] at h ⊢
+        exact h
+      · have hne : (n == "end") = false := by simpa using hn
+        simp only [hne, Bool.false_eq_true, if_false] at h ⊢
+        cases ha : afterLabel n whole with
+        | none => simp [ha] at h
+        | some tgt => simp only [ha] at h ⊢; exact ih _ _ _ h
+    | raw t =>
+      simp only [lrun] at h ⊢
+      by_cases hp : nopRaw t = true
+      · simp only [hp, if_true] at h ⊢; exact ih _ _ _ h
+      · simp only [hp, Bool.false_eq_true, if_false] at h ⊢
+        by_cases he : (t == "endlocal & exit /B %_e%") = true
+        · simp only [he, if_true] at h ⊢; exact h
+        · simp only [he, Bool.false_eq_true, if_false] at h ⊢
+          cases hs : stepB (.raw t) c with
+          | none => simp [hs] at h
+          | some r1 =>
+            obtain ⟨o1, c1⟩ := r1
+            simp only [hs] at h ⊢
+            cases o1 with
+            | normal => exact ih _ _ _ h
+            | exit k => exact h
+            | brk => simp at h
+            | cont => simp at h
 
 theorem lrun_mono_add (whole : List BLine) (f : Nat) (L : List BLine) (c : Cfg) (r : Out × Cfg) (h : lrun whole f L c = some r) :
     ∀ k, lrun whole (f + k) L c = some r
@@ -124,6 +155,14 @@ theorem lrun_complete {whole : List BLine} {L : List BLine} {c : Cfg} {o : Out} 
   | skipToClose ht hk _ ih => obtain ⟨f, hf⟩ := ih; exact ⟨f + 1, by simp only [lrun, ht, hk]; exact hf⟩
   | skipToElse ht hk _ ih => obtain ⟨f, hf⟩ := ih; exact ⟨f + 1, by simp only [lrun, ht, hk]; exact hf⟩
   | skipToElseIf ht hk _ ih => obtain ⟨f, hf⟩ := ih; exact ⟨f + 1, by simp only [lrun, ht, hk]; exact hf⟩
-  | finish hk => exact ⟨1, by simp [lrun, hk]⟩
+  | finish hk =>
+    refine ⟨1, ?_⟩
+    have e1 : ("endlocal & exit /B %_e%" == "endlocal & exit /B %_e%") = true := by simp
+    simp only [lrun, nopRaw_endlocal, Bool.false_eq_true, if_false, e1, if_true, hk, Option.map_some]
+  | nop hp _ ih => obtain ⟨f, hf⟩ := ih; exact ⟨f + 1, by simp only [lrun, hp, if_true]; exact hf⟩
+  | @gotoL n _ _ _ _ _ hne ht _ ih =>
+    obtain ⟨f, hf⟩ := ih
+    have hb : (n == "end") = false := by simpa using hne
+    exact ⟨f + 1, by simp only [lrun, hb, Bool.false_eq_true, if_false, ht]; exact hf⟩
 
 end Tsh.SemB
